@@ -76,6 +76,16 @@ def plan(tier, seed):
                     cases.append({'cpu': a, 'then': [b] if r % 2 == 0 else [b, a], 'n': 12})
     for i in range(30 if tier == 'quick' else 400):
         cases.append({'cpu': None, 'then': 'random', 'n': 12})
+    # float range limits: every float-typed statement kind of every target with the values at and just beyond
+    # the finite range of its format (max finite, its predecessor; overflow threshold, max*(1+2^-p), 2*max,
+    # 1e39, 1e300, DBL_MAX; both signs), one value per statement
+    for cpu in CPUS:
+        t = datadef.TARGETS[cpu]
+        if any(f in datadef.Gen.FLOAT_KINDS for f in t.fam):
+            for r in range(1 if tier == 'quick' else 4):
+                cases.append({'cpu': cpu, 'limits': True, 'be': False})
+                if t.bigendian:
+                    cases.append({'cpu': cpu, 'limits': True, 'be': True})
     return cases
 
 
@@ -142,7 +152,10 @@ def run_case(case, ctx):
         then = [rng.choice(SWITCHABLE) for _ in range(rng.choice([1, 2]))]
     tgt = datadef.TARGETS[cpu]
     gen = datadef.Gen(rng, tgt)
-    items = gen.program(case['n'], big=case.get('big'), switch_to=then)
+    if case.get('limits'):
+        items = gen.limits_program(case.get('be', False))
+    else:
+        items = gen.program(case['n'], big=case.get('big'), switch_to=then)
     progname = '>'.join([cpu] + list(then))
     good = [it for it in items if it.expect is None or it.expect == 'ok']
     bad = [it for it in items if it.expect is None or (it.expect or '').startswith('err')]
@@ -187,7 +200,8 @@ def run_case(case, ctx):
                 out.sets['warnings_seen'].add(d[1])
         where = '%s line %d `%s` [%s]' % (progname if then else it.cpu, ln, it.text.replace('\t', ' '), it.flags)
         if errs:
-            out.violate('%s:valid-statement-rejected:E%s' % (tag, errs[0][1]),
+            maxcls = [c for c in it.classes() if c.replace('+rep', '').replace('+dup', '').endswith('-max')]
+            out.violate('%s:valid-statement-rejected:E%s%s' % (tag, errs[0][1], ':max-finite-float' if maxcls else ''),
                         '%s: rejected with %s although every argument is within the documented range (argument classes %s)'
                         % (where, errs, '+'.join(it.classes())))
             desync = True
@@ -311,7 +325,8 @@ def run_case(case, ctx):
         if it.errcls == 'mixed-constant-and-placeholder':
             out.violate('%s:mixed-constant-and-placeholder-accepted' % tag, '%s: no error, emitted %s' % (where, data))
         else:
-            out.violate('%s:out-of-range-accepted:%s' % (tag, it.errcls), '%s: no error, emitted %s (value truncated)' % (where, data))
+            out.violate('%s:out-of-range-accepted:%s' % (tag, it.errcls), '%s: no error, emitted %s (a value that does not fit the field was %s instead of being rejected)'
+                        % (where, data, 'stored as infinity' if it.errcls.endswith('-overflow') else 'truncated'))
 
 
 def check_image(out, tgt, buf, image, desync):
